@@ -32,6 +32,10 @@ class InfraError(Exception):
     pass
 
 
+import threading  # noqa: E402
+_TLC_LOCK = threading.Lock()
+
+
 def log(*a):
     print("[check]", *a, file=sys.stderr, flush=True)
 
@@ -98,8 +102,10 @@ class Run:
             coverage=False, heap="6g", deadlock=False, extra=None, dfs=False, collect_beh=False,
             expect_violation=False):
         """Run TLC on spec/<module>.tla with spec/<cfg>. Returns TlcResult."""
-        self._tlc_n += 1
-        meta = os.path.join(self.work, "meta-%d" % self._tlc_n)
+        with _TLC_LOCK:     # run.tlc may be called from several threads (independent TLC jobs of one check)
+            self._tlc_n += 1
+            n = self._tlc_n
+        meta = os.path.join(self.work, "meta-%d" % n)
         jopts = ["-XX:+UseParallelGC", "-Xmx" + heap, "-Xss64m"]
         if dfs:
             jopts.append("-Dtlc2.tool.queue.IStateQueue=StateDeque")
@@ -122,7 +128,7 @@ class Run:
         if env:
             e.update({k: str(v) for k, v in env.items()})
         t = time.time()
-        outpath = os.path.join(self.work, "tlc-%d.out" % self._tlc_n)
+        outpath = os.path.join(self.work, "tlc-%d.out" % n)
         with open(outpath, "w") as out:
             try:
                 p = subprocess.run(cmd, cwd=self.specdir, env=e, stdout=out, stderr=subprocess.STDOUT,
@@ -155,8 +161,14 @@ class Run:
             r.violated = r.violated or "Deadlock"
         r.ok = (rc == 0 and not r.violated and not r.error)
         if coverage:
+            # with -coverage TLC prints interim reports during long runs (actions not reached yet show 0):
+            # only the final report counts
+            covtxt = r.stdout
+            k = covtxt.rfind("The coverage statistics")
+            if k >= 0:
+                covtxt = covtxt[k:]
             for cm in re.finditer(r"^<(\w+) line \d+, col \d+ to line \d+, col \d+ of module (\w+)>: (\d+):(\d+)$",
-                                  r.stdout, re.M):
+                                  covtxt, re.M):
                 if int(cm.group(4)) == 0 and cm.group(1) not in ("Init",):
                     r.coverage_zero.append(cm.group(1))
         if collect_beh:
